@@ -19,14 +19,15 @@ Proof.
   intro H; inversion H; subst; reflexivity.
 Qed.
 
-Lemma p_grouping_good n rec ts :
-  good_upto n rec -> length ts <= n -> good ts (p_grouping rec ts).
+Lemma p_grouping_good fx n rec ts :
+  good_upto n rec -> length ts <= n -> good ts (p_grouping fx rec ts).
 Proof.
   intros Hrec Hlen. destruct ts as [|t r]; [left; reflexivity|].
   simpl in Hlen.
   assert (Hr : good r (rec r)) by (apply Hrec; lia).
   unfold p_grouping.
   destruct (tk_kind t) eqn:Hk;
+    try (destruct (fx && negb (is_operand t)); [left; reflexivity|]);
     try (right; eexists; eexists; split; [reflexivity | simpl; lia]).
   - (* KDesc *)
     destruct Hr as [Hr | (e & r1 & Hr & Hl)]; rewrite Hr; simpl; [left; reflexivity|].
@@ -53,13 +54,13 @@ Proof.
     apply next_is_shorter in Hn4. right; eexists; eexists; split; [reflexivity | simpl; lia].
 Qed.
 
-Lemma p_neg_good n rec ts :
-  good_upto n rec -> length ts <= n -> good ts (p_neg rec ts).
+Lemma p_neg_good fx n rec ts :
+  good_upto n rec -> length ts <= n -> good ts (p_neg fx rec ts).
 Proof.
   intros Hrec Hlen. unfold p_neg.
   destruct (next_is KNeg ts) as [[t r]|] eqn:Hn; [|apply p_grouping_good with n; assumption].
   apply next_is_shorter in Hn.
-  assert (Hg : good r (p_grouping rec r)) by (apply p_grouping_good with n; [assumption | lia]).
+  assert (Hg : good r (p_grouping fx rec r)) by (apply p_grouping_good with n; [assumption | lia]).
   destruct Hg as [Hg | (e & r1 & Hg & Hl)]; rewrite Hg; simpl; [left; reflexivity|].
   destruct (expr_has_ch ch_qmark e); [left; reflexivity|].
   right; eexists; eexists; split; [reflexivity | lia].
@@ -84,105 +85,90 @@ Proof.
     + right; eexists; eexists; split; [reflexivity | lia].
 Qed.
 
-Lemma p_and_good n rec ts :
-  good_upto n rec -> length ts <= n -> good ts (p_and rec ts).
+Lemma p_and_good fx n rec ts :
+  good_upto n rec -> length ts <= n -> good ts (p_and fx rec ts).
 Proof.
   intros Hrec Hlen. unfold p_and.
-  assert (Hg : good ts (p_neg rec ts)) by (apply p_neg_good with n; assumption).
+  assert (Hg : good ts (p_neg fx rec ts)) by (apply p_neg_good with n; assumption).
   destruct Hg as [Hg | (e & r & Hg & Hl)]; rewrite Hg; simpl; [left; reflexivity|].
-  destruct (p_loop_good (p_neg rec) KAnd EAnd (length r) e r (S n)) as [H | (e' & r' & H & Hl')]; try lia.
+  destruct (p_loop_good (p_neg fx rec) KAnd EAnd (length r) e r (S n)) as [H | (e' & r' & H & Hl')]; try lia.
   - intros ts' Hts'. apply p_neg_good with n; [assumption | lia].
   - left; assumption.
   - right; exists e', r'; split; [assumption | lia].
 Qed.
 
-Lemma p_or_body_good n rec ts :
-  good_upto n rec -> length ts <= n -> good ts (p_or_body rec ts).
+Lemma p_or_body_good fx n rec ts :
+  good_upto n rec -> length ts <= n -> good ts (p_or_body fx rec ts).
 Proof.
   intros Hrec Hlen. unfold p_or_body.
-  assert (Hg : good ts (p_and rec ts)) by (apply p_and_good with n; assumption).
+  assert (Hg : good ts (p_and fx rec ts)) by (apply p_and_good with n; assumption).
   destruct Hg as [Hg | (e & r & Hg & Hl)]; rewrite Hg; simpl; [left; reflexivity|].
-  destruct (p_loop_good (p_and rec) KOr EOr (length r) e r (S n)) as [H | (e' & r' & H & Hl')]; try lia.
+  destruct (p_loop_good (p_and fx rec) KOr EOr (length r) e r (S n)) as [H | (e' & r' & H & Hl')]; try lia.
   - intros ts' Hts'. apply p_and_good with n; [assumption | lia].
   - left; assumption.
   - right; exists e', r'; split; [assumption | lia].
 Qed.
 
 (* fuel f handles every token list shorter than f *)
-Lemma p_or_good : forall f, good_upto f (p_or f).
+Lemma p_or_good fx : forall f, good_upto f (p_or fx f).
 Proof.
   induction f as [|f IH]; intros ts Hlen; [lia|].
   simpl. apply p_or_body_good with f; [assumption | lia].
 Qed.
 
-(* _parse on any token list: a tree or ValueError, never anything else
-   (in particular the fuel never runs out) *)
-Lemma parse_tokens_total (ts : list token) :
-  (exists e, parse_tokens ts = Ok e) \/ parse_tokens ts = Exn ValueError.
+(* repaired code: exhausted depth is a ValueError, so every fuel is good for every input *)
+Lemma p_or_good_fixed : forall f n, good_upto n (p_or true f).
+Proof.
+  induction f as [|f IH]; intros n ts Hlen; [left; reflexivity|].
+  simpl. apply p_or_body_good with (length ts); [apply IH | lia].
+Qed.
+
+(* _parse on any token list: a tree or ValueError, never anything else.
+   fx = false: the fuel (token count + 1) never runs out;
+   fx = true : whatever depth [limit] is available *)
+Lemma parse_tokens_total fx limit (ts : list token) :
+  (exists e, parse_tokens fx limit ts = Ok e) \/ parse_tokens fx limit ts = Exn ValueError.
 Proof.
   unfold parse_tokens.
-  destruct (p_or_good (S (length ts)) ts) as [H | (e & r & H & Hl)]; [lia | |]; rewrite H; simpl.
+  assert (Hg : good ts (p_or fx (if fx then Nat.min (S (length ts)) limit else S (length ts)) ts)).
+  { destruct fx; [apply (p_or_good_fixed _ (S (length ts))); lia | apply p_or_good; lia]. }
+  destruct Hg as [H | (e & r & H & Hl)]; rewrite H; simpl.
   - right; reflexivity.
   - destruct r; [left; eexists; reflexivity | right; reflexivity].
 Qed.
 
-Lemma compile_total (q : str) :
-  (exists e, compile q = Ok e) \/ compile q = Exn ValueError.
+Lemma compile_total fx limit (q : str) :
+  (exists e, compile fx limit q = Ok e) \/ compile fx limit q = Exn ValueError.
 Proof. unfold compile. apply parse_tokens_total. Qed.
 
 (* search: a verdict or ValueError *)
-Lemma search_total (q : str) (root : node) :
-  (exists b, search q root = Ok b) \/ search q root = Exn ValueError.
+Lemma search_total fx limit (q : str) (root : node) :
+  (exists b, search fx limit q root = Ok b) \/ search fx limit q root = Exn ValueError.
 Proof.
-  unfold search. destruct (compile_total q) as [(e & H) | H]; rewrite H; simpl.
+  unfold search. destruct (compile_total fx limit q) as [(e & H) | H]; rewrite H; simpl.
   - left; eexists; reflexivity.
   - right; reflexivity.
 Qed.
 
 (* ---------------------------------------------------------------- unbalanced grouping symbols *)
 
-(* FULL STATEMENT (false of the code):
-     forall q, balanced_groupers q = false -> compile q = Exn ValueError. *)
+(* RECORD OF THE REPAIRED DEFECT (fx = false, the code before the fix: commit):
+     forall q, balanced_groupers q = false -> compile q = Exn ValueError
+   was false: a closing symbol in operand position became a search term. *)
 Lemma unbalanced_rejected_refuted :
-  exists q, balanced_groupers q = false /\ exists e, compile q = Ok e.
+  exists q, balanced_groupers q = false /\ exists e, compile false 0 q = Ok e.
 Proof. exists [ch_close]. split; [reflexivity | eexists; reflexivity]. Qed.
 
 (* a lone opening symbol, a missing closer and a closer after a complete
    query are rejected (regression examples, kernel-evaluated) *)
 Definition unbalanced_examples : list str :=
-  [ [ch_open]; [ch_lbrack]; [ch_lbrace];
+  [ [ch_close]; [ch_rbrack]; [ch_rbrace]; [ch_lbrack; ch_lbrack]; [97%N; ch_amp; ch_amp; ch_close];
+    [ch_open]; [ch_lbrack]; [ch_lbrace];
     [ch_open; 97%N]; [97%N; ch_close]; [ch_open; ch_open; 97%N; ch_close];
     [ch_open; 97%N; ch_close; ch_close]; [ch_lbrace; 97%N; ch_rbrack]; [ch_lbrack; 97%N; ch_rbrace];
     [ch_lbrace; 97%N; ch_colon; 98%N]; [ch_open; ch_lbrace; ch_close] ].
 
 Lemma unbalanced_examples_rejected :
   forallb (fun q => negb (balanced_groupers q) &&
-                    match compile q with Exn ValueError => true | _ => false end) unbalanced_examples = true.
+                    match compile true 100 q with Exn ValueError => true | _ => false end) unbalanced_examples = true.
 Proof. vm_compute. reflexivity. Qed.
-
-(* ---------------------------------------------------------------- sibling order (refuted) *)
-From HV Require Import Model.Query Proofs.QueryProofs.
-
-(* FULL STATEMENT (false of the code):
-     forall q a b, sperm a b -> search q a = search q b.
-   The duplicate filter of && compares groups by content (HedGroup.__eq__),
-   so two negation results on distinct groups with equal content collapse. *)
-Lemma sibling_order_refuted :
-  exists q a b, sperm a b /\ search q a = Ok false /\ search q b = Ok true.
-Proof.
-  exists w_query, w_ann1, w_ann2. split; [exact w_sperm|]. split; vm_compute; reflexivity.
-Qed.
-
-(* Color || "blue" || Sens* *)
-Definition w_query_or : str := [67; 111; 108; 111; 114; 32; 124; 124; 32; 34; 98; 108; 117; 101; 34; 32; 124; 124; 32; 83; 101; 110; 115; 42]%N.
-
-Lemma nonvacuous :
-  search w_query w_ann2 = Ok true /\ distinct_groups w_ann2 /\
-  (exists e, compile w_query_or = Ok e /\ term_or_query e = true /\ matches e w_ann1 = true) /\
-  forallb (fun q => negb (balanced_groupers q) &&
-                    match compile q with Exn ValueError => true | _ => false end) unbalanced_examples = true.
-Proof.
-  split; [vm_compute; reflexivity|]. split; [exact w_ann2_distinct|].
-  split; [|exact unbalanced_examples_rejected].
-  eexists. split; [vm_compute; reflexivity|]. split; vm_compute; reflexivity.
-Qed.
